@@ -262,12 +262,18 @@ func hasPoison(b []byte) bool {
 var flushProbe [4]int
 
 // sloppyFlush: an application that, when a Flush fails, flushes once more and closes
-// the writer (a retry, a deferred Close) before giving up. The library has to answer
+// the writer (a retry, a deferred Close) before giving up, or goes on writing. The library has to answer
 // with errors; it must not touch a frame it no longer owns.
 func sloppyFlush(wr tchannel.ArgWriter, err error) error {
-	if app(2) == 1 {
+	switch app(3) {
+	case 1:
 		flushProbe[3]++
 		wr.Flush()
+		wr.Close()
+	case 2:
+		// ... or does not look at the error of Flush at all and goes on writing
+		flushProbe[3]++
+		wr.Write([]byte("written after a failed flush"))
 		wr.Close()
 	}
 	return err
